@@ -203,3 +203,134 @@ Proof.
   intros A0 A1 B0 B1. unfold decode_journal. rewrite !encode_journal_not_zero.
   rewrite !clear_journal_slot_roundtrip by assumption. destruct (g1 <? g0); eexists; eexists; reflexivity.
 Qed.
+
+(* ---- a journal record with entries (ACTIVE): the extents it names are read back ---- *)
+Definition ext_valid (total : N) (x : N * N) : Prop :=
+  fst x < 2 ^ 32 /\ snd x < 2 ^ 32 /\ FEOX_DATA_START_BLOCK <= fst x /\ 0 < snd x /\ fst x + snd x <= total.
+
+Lemma decode_entries_app total exts : forall pre post,
+  Forall (ext_valid total) exts ->
+  decode_entries (pre ++ encode_entries exts ++ post) (length pre) (length exts) total = Some exts.
+Proof.
+  induction exts as [|[s n] t IH]; intros pre post H; [reflexivity|].
+  pose proof (Forall_inv H) as (S32 & N32 & Sd & Np & St). pose proof (Forall_inv_tail H) as Ht. cbn [fst snd] in *.
+  cbn [length decode_entries encode_entries].
+  assert (U1 : u32_at (pre ++ (le_bytes 4 s ++ le_bytes 4 n ++ encode_entries t) ++ post) (length pre) = s).
+  { unfold u32_at. rewrite sub_app_ge by lia. rewrite Nat.sub_diag. rewrite <- !app_assoc.
+    rewrite sub_0_app by (rewrite le_bytes_length; reflexivity). apply (le_num_le_bytes 4). exact S32. }
+  assert (U2 : u32_at (pre ++ (le_bytes 4 s ++ le_bytes 4 n ++ encode_entries t) ++ post) (length pre + 4) = n).
+  { unfold u32_at. rewrite sub_app_ge by lia. replace (length pre + 4 - length pre)%nat with 4%nat by lia. rewrite <- !app_assoc.
+    rewrite sub_app_ge by (rewrite le_bytes_length; lia). rewrite le_bytes_length, Nat.sub_diag.
+    rewrite sub_0_app by (rewrite le_bytes_length; reflexivity). apply (le_num_le_bytes 4). exact N32. }
+  rewrite U1, U2.
+  destruct (N.ltb_spec total (s + n)); [lia|]. destruct (N.ltb_spec s FEOX_DATA_START_BLOCK); [lia|]. destruct (N.eqb_spec n 0); [lia|]. cbn [orb].
+  assert (E : pre ++ (le_bytes 4 s ++ le_bytes 4 n ++ encode_entries t) ++ post = (pre ++ le_bytes 4 s ++ le_bytes 4 n) ++ encode_entries t ++ post)
+    by (rewrite <- !app_assoc; reflexivity).
+  rewrite E. replace (length pre + 8)%nat with (length (pre ++ le_bytes 4 s ++ le_bytes 4 n)) by (rewrite !app_length, !le_bytes_length; lia).
+  rewrite (IH _ post Ht). reflexivity.
+Qed.
+
+Lemma journal_size_fits count : (40 + 8 * N.to_nat count <= N.to_nat (journal_image_size count))%nat.
+Proof.
+  unfold journal_image_size, blocks_for, JOURNAL_HEADER_SIZE, JOURNAL_ENTRY_SIZE, FEOX_BLOCK_SIZE.
+  assert (Z4 : 4096 <> 0) by lia.
+  pose proof (N.div_mod (40 + count * 8 + 4096 - 1) 4096 Z4) as D.
+  pose proof (N.mod_upper_bound (40 + count * 8 + 4096 - 1) 4096 Z4) as M.
+  generalize dependent ((40 + count * 8 + 4096 - 1) / 4096). generalize dependent ((40 + count * 8 + 4096 - 1) mod 4096). intros m M q D. lia.
+Qed.
+
+Lemma encode_entries_length exts : length (encode_entries exts) = (8 * length exts)%nat.
+Proof. induction exts as [|[s n] t IH]; [reflexivity|]. cbn [encode_entries length]. rewrite !app_length, !le_bytes_length, IH. lia. Qed.
+
+Theorem journal_record_roundtrip g state exts rest total :
+  0 < g -> g < 2 ^ 64 ->
+  (state = JOURNAL_CLEAR /\ exts = []) \/ (state = JOURNAL_ACTIVE /\ exts <> []) ->
+  N.of_nat (length exts) <= ALLOCATION_JOURNAL_MAX_ENTRIES ->
+  Forall (ext_valid total) exts -> no_overlap_sorted (sort_by_start exts) = true ->
+  decode_slot (encode_journal g state exts ++ rest) total = Some (g, exts).
+Proof.
+  intros G0 G1 Hst Hcnt Hval Hov. unfold encode_journal.
+  set (count := N.of_nat (length exts)) in *.
+  assert (C32 : count < 2 ^ 32) by (unfold ALLOCATION_JOURNAL_MAX_ENTRIES in Hcnt; lia).
+  assert (St32 : state < 2 ^ 32) by (destruct Hst as [[-> _]|[-> _]]; vm_compute; reflexivity).
+  set (size := N.to_nat (journal_image_size count)).
+  set (raw := JOURNAL_MAGIC ++ le_bytes 4 JOURNAL_VERSION ++ zeros 4 ++ le_bytes 8 g ++ le_bytes 4 state ++
+              le_bytes 4 count ++ zeros 8 ++ encode_entries exts).
+  assert (RL : length raw = (40 + 8 * length exts)%nat).
+  { unfold raw. rewrite !app_length, !le_bytes_length, encode_entries_length. reflexivity. }
+  assert (FIT : (length raw <= size)%nat).
+  { rewrite RL. pose proof (journal_size_fits count). unfold size, count in *. lia. }
+  set (pad := zeros (size - length raw)).
+  assert (PL : length pad = (size - length raw)%nat) by (unfold pad, zeros; apply repeat_length).
+  set (img := raw ++ pad).
+  set (c := journal_checksum img).
+  assert (Cl : c < 2 ^ 32) by (unfold c, journal_checksum; apply crc32c_lt; lia).
+  assert (Xl : N.lxor c MASK32 < 2 ^ 32) by (apply lxor_lt; [exact Cl|unfold MASK32; lia]).
+  set (tail := encode_entries exts ++ pad).
+  assert (IMG : exists b0 b1 b2 b3 b4 b5 b6 b7 b8 b9 b10 b11 b12 b13 b14 b15 t16 t36,
+             img = b0 :: b1 :: b2 :: b3 :: b4 :: b5 :: b6 :: b7 :: b8 :: b9 :: b10 :: b11 :: b12 :: b13 :: b14 :: b15 :: t16 ++ (0 :: 0 :: 0 :: 0 :: t36) /\
+             length t16 = 16%nat /\
+             splice (splice img 12 (le_bytes 4 c)) 32 (le_bytes 4 (N.lxor c MASK32)) =
+             b0 :: b1 :: b2 :: b3 :: b4 :: b5 :: b6 :: b7 :: b8 :: b9 :: b10 :: b11 :: le_bytes 4 c ++ t16 ++ le_bytes 4 (N.lxor c MASK32) ++ t36 /\
+             skipn 36 img = t36 /\ t36 = 0 :: 0 :: 0 :: 0 :: tail /\
+             [b0; b1; b2; b3; b4; b5; b6; b7] = JOURNAL_MAGIC /\
+             le_num [b8; b9; b10; b11] = JOURNAL_VERSION /\
+             le_num (firstn 8 t16) = g /\ le_num (firstn 4 (skipn 8 t16)) = state /\ le_num (firstn 4 (skipn 12 t16)) = count).
+  { unfold img, raw. cbn [JOURNAL_MAGIC le_bytes zeros repeat app]. fold tail.
+    do 16 eexists. exists [g mod 256; (g / 256) mod 256; (g / 256 / 256) mod 256; (g / 256 / 256 / 256) mod 256;
+                          (g / 256 / 256 / 256 / 256) mod 256; (g / 256 / 256 / 256 / 256 / 256) mod 256;
+                          (g / 256 / 256 / 256 / 256 / 256 / 256) mod 256; (g / 256 / 256 / 256 / 256 / 256 / 256 / 256) mod 256;
+                          state mod 256; (state / 256) mod 256; (state / 256 / 256) mod 256; (state / 256 / 256 / 256) mod 256;
+                          count mod 256; (count / 256) mod 256; (count / 256 / 256) mod 256; (count / 256 / 256 / 256) mod 256].
+    exists (0 :: 0 :: 0 :: 0 :: tail).
+    split; [try rewrite <- !app_assoc; reflexivity|]. split; [reflexivity|]. split; [try rewrite <- !app_assoc; reflexivity|]. split; [try rewrite <- !app_assoc; reflexivity|]. split; [reflexivity|].
+    split; [reflexivity|]. split; [vm_compute; reflexivity|]. split; [cbn [firstn]; apply le8; exact G1|].
+    split; [cbn [firstn skipn]; apply le4; exact St32|cbn [firstn skipn]; apply le4; exact C32]. }
+  destruct IMG as (b0 & b1 & b2 & b3 & b4 & b5 & b6 & b7 & b8 & b9 & b10 & b11 & b12 & b13 & b14 & b15 & t16 & t36 &
+                   EI & L16 & ES & E36 & ET & EM & EV & EG & EST & ECN).
+  rewrite ES. clear ES.
+  do 16 (destruct t16 as [|? t16]; [discriminate|]). destruct t16; [|discriminate].
+  cbn [firstn skipn] in EG, EST, ECN.
+  set (pre40 := b0 :: b1 :: b2 :: b3 :: b4 :: b5 :: b6 :: b7 :: b8 :: b9 :: b10 :: b11 :: le_bytes 4 c ++
+                (n :: n0 :: n1 :: n2 :: n3 :: n4 :: n5 :: n6 :: n7 :: n8 :: n9 :: n10 :: n11 :: n12 :: n13 :: n14 :: []) ++
+                le_bytes 4 (N.lxor c MASK32) ++ [0; 0; 0; 0]).
+  set (d := (b0 :: b1 :: b2 :: b3 :: b4 :: b5 :: b6 :: b7 :: b8 :: b9 :: b10 :: b11 :: le_bytes 4 c ++
+             (n :: n0 :: n1 :: n2 :: n3 :: n4 :: n5 :: n6 :: n7 :: n8 :: n9 :: n10 :: n11 :: n12 :: n13 :: n14 :: []) ++
+             le_bytes 4 (N.lxor c MASK32) ++ t36) ++ rest).
+  assert (DD : d = pre40 ++ encode_entries exts ++ (pad ++ rest)).
+  { unfold d, pre40. rewrite ET. unfold tail. cbn [le_bytes app]. rewrite <- !app_assoc. reflexivity. }
+  assert (P40 : length pre40 = 40%nat) by reflexivity.
+  assert (D0 : sub d 0 8 = JOURNAL_MAGIC) by (rewrite <- EM; reflexivity).
+  assert (D8 : u32_at d 8 = JOURNAL_VERSION) by (rewrite <- EV; reflexivity).
+  assert (D12 : u32_at d 12 = c) by (unfold u32_at, d, sub; cbn [le_bytes app skipn firstn]; apply le4; exact Cl).
+  assert (D16 : u64_at d 16 = g) by (rewrite <- EG; reflexivity).
+  assert (D24 : u32_at d 24 = state) by (rewrite <- EST; reflexivity).
+  assert (D28 : u32_at d 28 = count) by (rewrite <- ECN; reflexivity).
+  assert (D32 : u32_at d 32 = N.lxor c MASK32) by (unfold u32_at, d, sub; cbn [le_bytes app skipn firstn]; apply le4; exact Xl).
+  assert (IL : length img = size) by (unfold img; rewrite app_length, PL; lia).
+  unfold decode_slot. rewrite D0, list_eqb_refl. cbn [negb]. rewrite D8.
+  replace ((JOURNAL_VERSION =? FULL_SLOT_CHECKSUM_VERSION) || (JOURNAL_VERSION =? JOURNAL_VERSION)) with true by reflexivity.
+  cbn [negb]. rewrite D16, D24, D28.
+  destruct (N.eqb_spec g 0); [lia|].
+  destruct (N.ltb_spec ALLOCATION_JOURNAL_MAX_ENTRIES count); [lia|]. cbn [orb].
+  assert (SV : (negb ((state =? JOURNAL_CLEAR) || (state =? JOURNAL_ACTIVE)) || (state =? JOURNAL_CLEAR) && negb (count =? 0) ||
+                (state =? JOURNAL_ACTIVE) && (count =? 0)) = false).
+  { destruct Hst as [[-> ->]|[-> Hne]]; [reflexivity|].
+    assert (count <> 0) by (unfold count; destruct exts; [contradiction|cbn; lia]).
+    destruct (N.eqb_spec count 0); [contradiction|]. reflexivity. }
+  rewrite SV.
+  replace (JOURNAL_VERSION =? FULL_SLOT_CHECKSUM_VERSION) with false by reflexivity.
+  fold size. rewrite D12, D32, N.eqb_refl.
+  assert (CK : journal_checksum (firstn size d) = c).
+  { assert (F : firstn size d = b0 :: b1 :: b2 :: b3 :: b4 :: b5 :: b6 :: b7 :: b8 :: b9 :: b10 :: b11 :: le_bytes 4 c ++
+                                 (n :: n0 :: n1 :: n2 :: n3 :: n4 :: n5 :: n6 :: n7 :: n8 :: n9 :: n10 :: n11 :: n12 :: n13 :: n14 :: []) ++
+                                 le_bytes 4 (N.lxor c MASK32) ++ t36).
+    { unfold d. apply firstn_app_exact. cbn [length app le_bytes]. rewrite <- E36. rewrite skipn_length, IL.
+      assert (36 <= size)%nat by (rewrite RL in FIT; lia). lia. }
+    rewrite F. unfold c, journal_checksum. f_equal.
+    rewrite EI. unfold sub. cbn [le_bytes app skipn firstn]. rewrite <- E36. rewrite EI. cbn [skipn]. reflexivity. }
+  rewrite CK, N.eqb_refl. cbn [andb negb].
+  replace (N.to_nat JOURNAL_HEADER_SIZE) with (length pre40) by reflexivity.
+  replace (N.to_nat count) with (length exts) by (unfold count; rewrite Nat2N.id; reflexivity).
+  rewrite DD. rewrite decode_entries_app by exact Hval. rewrite Hov. reflexivity.
+Qed.
